@@ -22,10 +22,14 @@
  *   crcvs <single> <bodyLen> <seed> <size2|-> <init> <u.num.m.szx.etag.fmt[.len[.s2]],…>   the same; u = 1: the response arrives with
  *                                              sent == NULL (NON / separate response, or no request outstanding); init = 1: the session
  *                                              starts with the lg_crcv coap_send() sets up for the request
+ *   crcvt <single> <bodyLen> <seed> <size2|-> <init> <tx0> <t.u.num.m.szx.etag.fmt|x<i>|n,…>   the same with TOKENS (described at do_crcvt)
  *   ctok <isReq> <tokhex|-> <apphex|-/state,…|-> <apphex|-/state,…|->   coap_check_update_token (token restoration in front of the NACK
  *                                              handler) on a session with these lg_crcv / lg_xmit entries (application token / state token)
  *   xmit2 <szx> <bodyLen> <seed> <mtu2> <num.szx,…>        coap_add_data_large_response + coap_handle_request_send_block sequence (server, Block2)
  *   xmit1 <cszx|-> <bodyLen> <seed> <mtu> <code.num.szx|code,…>   coap_add_data_large_request + coap_send + coap_handle_response_send_block sequence (client, Block1)
+ *
+ *   xmit1t <cszx|-> <bodyLen> <seed> <mtu> <non> <tx0> <p|x|y|t.code[.num.szx],…>   the client's Block1 send path with TOKENS and the whole
+ *                                              handle_response() chain (described at do_xmit1t)
  *
  *   q408 / qenc / qset / qreq / qsend          RFC 9177 (Q-Block) ops of C02, described at do_q408 / do_qenc / do_qset / do_qreq / do_qsend
  *
@@ -726,6 +730,167 @@ static void do_crcv(int single, size_t bodyLen, unsigned seed, long size2, char 
   do_crcv_x(single, bodyLen, seed, size2, seq, 0, 0);
 }
 
+/* crcvt <single> <bodyLen> <seed> <size2|-> <init> <tx0> <items> : the client's Block2 receive path with the TOKENS (round R09c; model
+ * crcvStepT / cliSendT / cliExpireT, Model/BlockNetTok.lean).  session->tx_token starts at <tx0>; init = 1: the lg_crcv coap_send() sets
+ * up for the application's request (token a1a1a1a1) exists.  Items:
+ *   t.u.num.m.szx.etag.fmt   a 2.05 response as for `crcv`, carrying token t = 0: the application's, 1: the token of the request the
+ *                            client transmitted last (the application's if none yet), 2: STATE_TOKEN_FULL(tx0 + 1000, 3) (a token
+ *                            this session never issued); u = 0: `sent` is a request with the application's token, 1: NULL, 2: a
+ *                            request with the token of the response
+ *   x<i>                     element i of session->lg_crcv times out (LL_DELETE + coap_block_delete_lg_crcv)
+ *   n                        the application sends the GET again: the real coap_send()
+ * Printed per item: as `crcv`, every transmitted request as +q<num>.<szx>t<tokhex> (+q?t<tokhex> without Block2), T<tokhex> = the token
+ * of rcvd when the handler sees it (behind h / H / e4xx), then `/` and the session's lg_crcv list, head first, elements separated by
+ * `|`: <app_token>.<STATE_TOKEN_BASE>.<retry_counter>.<I | R<ranges>>, `-` if empty. */
+static uint8_t crcvt_last[8]; static size_t crcvt_lastn;
+static char crcvt_tbuf[40];
+static void hex_into(char *dst, size_t cap, const uint8_t *p, size_t n) {
+  size_t k = 0;
+  if (!n) { snprintf(dst, cap, "-"); return; }
+  for (size_t i = 0; i < n && k + 3 < cap; i++) k += (size_t)snprintf(dst + k, cap - k, "%02x", p[i]);
+}
+static coap_response_t crcvt_on_response(coap_session_t *session, const coap_pdu_t *sent, const coap_pdu_t *rcvd, const coap_mid_t mid) {
+  hex_into(crcvt_tbuf, sizeof(crcvt_tbuf), rcvd->actual_token.s, rcvd->actual_token.length);
+  return crcv_on_response(session, sent, rcvd, mid);
+}
+static void crcvt_on_tx(const sim_dgram_t *d) {
+  coap_pdu_t *p = coap_pdu_init(0, 0, 0, 4096);
+  coap_block_b_t b;
+  size_t n = strlen(crcv_qbuf);
+  char hx[40];
+  if (p && coap_pdu_parse(COAP_PROTO_UDP, d->data, d->len, p)) {
+    hex_into(hx, sizeof(hx), p->actual_token.s, p->actual_token.length);
+    crcvt_lastn = p->actual_token.length > 8 ? 8 : p->actual_token.length;
+    memcpy(crcvt_last, p->actual_token.s, crcvt_lastn);
+    if (coap_get_block_b(NULL, p, COAP_OPTION_BLOCK2, &b)) snprintf(crcv_qbuf + n, sizeof(crcv_qbuf) - n, "+q%u.%ut%s", b.num, b.szx, hx);
+    else snprintf(crcv_qbuf + n, sizeof(crcv_qbuf) - n, "+q?t%s", hx);
+  } else
+    snprintf(crcv_qbuf + n, sizeof(crcv_qbuf) - n, "+q!");
+  if (p) coap_delete_pdu(p);
+}
+static void crcvt_print_list(coap_session_t *s) {
+  coap_lg_crcv_t *q; int first = 1;
+  printf("/");
+  if (!s->lg_crcv) { printf("-"); return; }
+  LL_FOREACH(s->lg_crcv, q) {
+    char hx[40];
+    hex_into(hx, sizeof(hx), q->app_token->s, q->app_token->length);
+    printf("%s%s.%llu.%u.", first ? "" : "|", hx, (unsigned long long)STATE_TOKEN_BASE(q->state_token), (unsigned)q->retry_counter);
+    first = 0;
+    if (q->initial) printf("I");
+    else {
+      const coap_rblock_t *rb = &q->rec_blocks;
+      printf("R");
+      for (uint32_t i = 0; i < rb->used; i++) printf("%s%u-%u", i ? "+" : "", rb->range[i].begin, rb->range[i].end);
+    }
+  }
+}
+static coap_pdu_t *crcvt_request(coap_session_t *s, const uint8_t *tok, size_t tokn) {
+  coap_pdu_t *p = coap_new_pdu(COAP_MESSAGE_NON, COAP_REQUEST_CODE_GET, s);
+  coap_add_token(p, tokn, tok);
+  coap_add_option(p, COAP_OPTION_URI_PATH, 1, (const uint8_t *)"b");
+  return p;
+}
+static void do_crcvt(int single, size_t bodyLen, unsigned seed, long size2, int init, uint64_t tx0, char *seq) {
+  static const uint8_t tok[4] = {0xa1, 0xa1, 0xa1, 0xa1};
+  sim_reset();
+  sim_log_enabled = 0;
+  uint8_t *body = mk_body(bodyLen, seed);
+  coap_context_t *ctx = sim_new_context();
+  coap_session_t *s = sim_new_client(ctx, 5683);
+  coap_pdu_t *sent;
+  char *tk, *save = NULL;
+  int first = 1, k = 0;
+  coap_context_set_block_mode(ctx, COAP_BLOCK_USE_LIBCOAP | (single ? COAP_BLOCK_SINGLE_BODY : 0));
+  s->block_mode = ctx->block_mode;
+  s->tx_token = tx0;
+  coap_register_response_handler(ctx, crcvt_on_response);
+  sim_tx_hook = crcvt_on_tx;
+  memcpy(crcvt_last, tok, 4); crcvt_lastn = 4;
+  sent = crcvt_request(s, tok, 4);
+  if (init) {
+    coap_lg_crcv_t *lg;
+    coap_lock_lock(ctx, return);
+    lg = coap_block_new_lg_crcv(s, sent, NULL);
+    if (lg) LL_PREPEND(s->lg_crcv, lg);
+    coap_lock_unlock(ctx);
+  }
+  for (tk = strtok_r(seq, ",", &save); tk; tk = strtok_r(NULL, ",", &save), k++) {
+    unsigned t, num, m, szx, etag, fmt, u;
+    uint8_t buf[8], rtok[8];
+    size_t rtokn;
+    coap_pdu_t *rcvd, *sent2 = NULL;
+    size_t chunk, off, plen;
+    int ret;
+    if (!first) fputc(',', stdout);
+    first = 0;
+    crcv_hbuf[0] = crcv_qbuf[0] = crcvt_tbuf[0] = 0;
+    if (tk[0] == 'x') {
+      unsigned idx = (unsigned)strtoul(tk + 1, 0, 10), j = 0;
+      coap_lg_crcv_t *q, *hit = NULL;
+      coap_lock_lock(ctx, break);
+      LL_FOREACH(s->lg_crcv, q) { if (j++ == idx) { hit = q; break; } }
+      if (hit) { LL_DELETE(s->lg_crcv, hit); coap_block_delete_lg_crcv(s, hit); }
+      coap_lock_unlock(ctx);
+      printf("x");
+      crcvt_print_list(s);
+      continue;
+    }
+    if (!strcmp(tk, "n")) {
+      coap_pdu_t *p = crcvt_request(s, tok, 4);
+      coap_mid_t mid = coap_send(s, p);
+      printf("n%s%s", mid == COAP_INVALID_MID ? "!" : "", crcv_qbuf);
+      crcvt_print_list(s);
+      continue;
+    }
+    if (sscanf(tk, "%u.%u.%u.%u.%u.%u.%u", &t, &u, &num, &m, &szx, &etag, &fmt) != 7 || t > 2 || u > 2 || szx > 6 || m > 1 || etag > 255 ||
+        fmt > 255) { printf("bad-op"); break; }
+    if (t == 0) { memcpy(rtok, tok, 4); rtokn = 4; }
+    else if (t == 1) { memcpy(rtok, crcvt_last, crcvt_lastn); rtokn = crcvt_lastn; }
+    else rtokn = coap_encode_var_safe8(rtok, 8, STATE_TOKEN_FULL(tx0 + 1000, 3));
+    chunk = (size_t)1 << (szx + 4);
+    off = (size_t)num * chunk;
+    if (off > bodyLen) off = bodyLen;
+    plen = bodyLen - off < chunk ? bodyLen - off : chunk;
+    rcvd = coap_pdu_init(COAP_MESSAGE_NON, COAP_RESPONSE_CODE_CONTENT, (coap_mid_t)(200 + k), 4096);
+    coap_add_token(rcvd, rtokn, rtok);
+    if (etag) { buf[0] = (uint8_t)etag; coap_add_option(rcvd, COAP_OPTION_ETAG, 1, buf); }
+    if (fmt) coap_add_option(rcvd, COAP_OPTION_CONTENT_FORMAT, coap_encode_var_safe(buf, sizeof(buf), fmt), buf);
+    coap_add_option(rcvd, COAP_OPTION_BLOCK2, coap_encode_var_safe(buf, sizeof(buf), (num << 4) | (m << 3) | szx), buf);
+    if (size2 >= 0) coap_add_option(rcvd, COAP_OPTION_SIZE2, coap_encode_var_safe(buf, sizeof(buf), (unsigned)size2), buf);
+    if (plen) coap_add_data(rcvd, plen, body + off);
+    if (u == 2) sent2 = crcvt_request(s, rtok, rtokn);
+    coap_lock_lock(ctx, break);
+    ret = coap_handle_response_get_block(ctx, s, u == 1 ? NULL : u == 2 ? sent2 : sent, rcvd, COAP_RECURSE_OK);
+    coap_lock_unlock(ctx);
+    if (crcv_hbuf[0]) printf("%s", crcv_hbuf);
+    else if (ret == 0) {
+      hex_into(crcvt_tbuf, sizeof(crcvt_tbuf), rcvd->actual_token.s, rcvd->actual_token.length);
+      if (rcvd->code == COAP_RESPONSE_CODE(402)) printf("e402");
+      else if (rcvd->code == COAP_RESPONSE_CODE(408)) printf("e408");
+      else {
+        size_t l = 0, o = 0, tt = 0; const uint8_t *d = NULL;
+        coap_get_data_large(rcvd, &l, &d, &o, &tt);
+        printf("h%zu:%zu:%zu:%08x", o, l, tt, sim_fnv(d, l));
+      }
+    } else
+      printf("s");
+    printf("%s", crcv_qbuf);
+    if (crcvt_tbuf[0]) printf("T%s", crcvt_tbuf);
+    crcvt_print_list(s);
+    coap_delete_pdu(rcvd);
+    if (sent2) coap_delete_pdu(sent2);
+    /* `sent` had its token put back / its Block2 option removed by the call: a fresh one for the next item */
+    coap_delete_pdu(sent);
+    sent = crcvt_request(s, tok, 4);
+  }
+  coap_delete_pdu(sent);
+  sim_tx_hook = NULL;
+  sim_free_all(0);
+  sim_log_enabled = 1;
+  free(body);
+}
+
 /* ctok <isReq> <tokhex|-> <crcvs> <xmits> : coap_check_update_token(session, pdu) — what coap_handle_nack() does to the abandoned
  * PDU before the application's NACK handler sees it.  The session gets lg_crcv entries (in list order) and lg_xmit entries with the
  * given application token / state token; pdu is a GET request (isReq = 1) or a 2.05 response carrying <tokhex>.  Prints the token
@@ -941,6 +1106,117 @@ static void do_xmit1(int cszx, size_t bodyLen, unsigned seed, unsigned mtu, char
     coap_delete_pdu(rcvd);
   }
 out:
+  sim_tx_hook = NULL;
+  sim_free_all(0);
+  sim_log_enabled = 1;
+  printf(" rel=%d", rel_count);
+  free(body);
+}
+
+/* xmit1t <cszx|-> <bodyLen> <seed> <mtu> <non> <tx0> <items> : the client's Block1 path WITH TOKENS (round R09c; model putStep1T /
+ * rspStep1T, Model/BlockNetTok1.lean).  session->tx_token starts at <tx0>; the application's requests are NON (non = 1) or CON.  Items:
+ *   p                  the application PUTs the body (token a1a1a1a1, Block1 (0,0,cszx) if given): coap_add_data_large_request + coap_send
+ *   t.code[.num.szx]   a response (code as in xmit1, optional Block1 (num,1,szx)) carrying token t = 0: the application's, 1: that of
+ *                      the datagram transmitted last, 2: STATE_TOKEN_FULL(tx0 + 1000, 3); what handle_response() does with it:
+ *                      coap_handle_response_send_block, if that returns 0 coap_handle_response_get_block, if that returns 0 the handler
+ *   x / y              the lg_xmit / the lg_crcv at the head of the session's list times out (LL_DELETE + coap_block_delete_lg_xmit / _crcv)
+ * Printed per item: p<first datagram>t<token> | pfail;  for a response the datagram transmitted (b…t<token>), i (send_block returned 1,
+ * nothing sent), f / F (returned 0 / with the code rewritten to 5.00) followed by T<token> = the token of rcvd the handler sees (S if
+ * get_block returned 1); then /X<n>[:blk.offset.last.count.base.link] C<n>[:app.base.retry] = both lists (length, head element). */
+static char x1t_tok[40];
+static void x1t_on_tx(const sim_dgram_t *d) {
+  x1_on_tx(d);
+  hex_into(x1t_tok, sizeof(x1t_tok), d->token, d->tkl);
+}
+static void x1t_state(coap_session_t *s) {
+  coap_lg_xmit_t *x; coap_lg_crcv_t *c; int nx = 0, nc = 0;
+  LL_FOREACH(s->lg_xmit, x) nx++;
+  LL_FOREACH(s->lg_crcv, c) nc++;
+  printf("/X%d", nx);
+  if (s->lg_xmit)
+    printf(":%u.%zu.%d.%u.%llu.%d", (unsigned)s->lg_xmit->blk_size, s->lg_xmit->offset, s->lg_xmit->last_block, (unsigned)s->lg_xmit->b.b1.count,
+           (unsigned long long)STATE_TOKEN_BASE(s->lg_xmit->b.b1.state_token), s->lg_xmit->lg_crcv ? 1 : 0);
+  printf("C%d", nc);
+  if (s->lg_crcv) {
+    char hx[40];
+    hex_into(hx, sizeof(hx), s->lg_crcv->app_token->s, s->lg_crcv->app_token->length);
+    printf(":%s.%llu.%u", hx, (unsigned long long)STATE_TOKEN_BASE(s->lg_crcv->state_token), (unsigned)s->lg_crcv->retry_counter);
+  }
+}
+static coap_response_t x1t_on_response(coap_session_t *session, const coap_pdu_t *sent, const coap_pdu_t *rcvd, const coap_mid_t mid) {
+  (void)session; (void)sent; (void)mid;
+  hex_into(crcvt_tbuf, sizeof(crcvt_tbuf), rcvd->actual_token.s, rcvd->actual_token.length);
+  return COAP_RESPONSE_OK;
+}
+static void do_xmit1t(int cszx, size_t bodyLen, unsigned seed, unsigned mtu, int non, uint64_t tx0, char *seq) {
+  static const uint8_t tok[4] = {0xa1, 0xa1, 0xa1, 0xa1};
+  sim_reset();
+  sim_log_enabled = 0;
+  uint8_t *body = mk_body(bodyLen, seed), buf[8];
+  coap_context_t *ctx = sim_new_context();
+  coap_session_t *s = sim_new_client(ctx, 5683);
+  char *tk, *save = NULL;
+  int k = 0;
+  coap_context_set_block_mode(ctx, COAP_BLOCK_USE_LIBCOAP | COAP_BLOCK_SINGLE_BODY);
+  s->block_mode = ctx->block_mode;
+  coap_session_set_mtu(s, mtu);
+  coap_register_response_handler(ctx, x1t_on_response);
+  s->tx_token = tx0;
+  sim_tx_hook = x1t_on_tx;
+  x1_buf[0] = 0; x1_tkl = 4; memcpy(x1_tok, tok, 4);
+  rel_count = 0;
+  for (tk = strtok_r(seq, ",", &save); tk; tk = strtok_r(NULL, ",", &save), k++) {
+    if (k) fputc(',', stdout);
+    x1_buf[0] = 0; x1t_tok[0] = 0; crcvt_tbuf[0] = 0;
+    if (!strcmp(tk, "p")) {
+      coap_pdu_t *p = coap_new_pdu(non ? COAP_MESSAGE_NON : COAP_MESSAGE_CON, COAP_REQUEST_CODE_PUT, s);
+      coap_add_token(p, 4, tok);
+      coap_add_option(p, COAP_OPTION_URI_PATH, 1, (const uint8_t *)"b");
+      if (cszx >= 0) coap_add_option(p, COAP_OPTION_BLOCK1, coap_encode_var_safe(buf, sizeof(buf), (unsigned)cszx), buf);
+      if (!coap_add_data_large_request(s, p, bodyLen, body, rel_cb, NULL)) { printf("pfail"); coap_delete_pdu(p); }
+      else if (coap_send(s, p) == COAP_INVALID_MID) printf("psend-fail");
+      else printf("p%st%s", x1_buf[0] ? x1_buf : "-", x1t_tok[0] ? x1t_tok : "-");
+    } else if (!strcmp(tk, "x") || !strcmp(tk, "y")) {
+      coap_lock_lock(ctx, break);
+      if (tk[0] == 'x' && s->lg_xmit) { coap_lg_xmit_t *x = s->lg_xmit; LL_DELETE(s->lg_xmit, x); coap_block_delete_lg_xmit(s, x); }
+      if (tk[0] == 'y' && s->lg_crcv) { coap_lg_crcv_t *c = s->lg_crcv; LL_DELETE(s->lg_crcv, c); coap_block_delete_lg_crcv(s, c); }
+      coap_lock_unlock(ctx);
+      printf("%s", tk);
+    } else {
+      unsigned t, code, num = 0, sz = 0;
+      int nf = sscanf(tk, "%u.%u.%u.%u", &t, &code, &num, &sz), ret;
+      uint8_t rtok[8]; size_t rtokn;
+      coap_pdu_t *rcvd;
+      if ((nf != 2 && nf != 4) || t > 2 || sz > 6 || num > 0xFFFFF || code > 255) { printf("bad-op"); break; }
+      if (t == 0) { memcpy(rtok, tok, 4); rtokn = 4; }
+      else if (t == 1) { memcpy(rtok, x1_tok, x1_tkl); rtokn = x1_tkl; }
+      else rtokn = coap_encode_var_safe8(rtok, 8, STATE_TOKEN_FULL(tx0 + 1000, 3));
+      rcvd = coap_pdu_init(COAP_MESSAGE_NON, (coap_pdu_code_t)code, (coap_mid_t)(300 + k), 256);
+      coap_add_token(rcvd, rtokn, rtok);
+      if (nf == 4) coap_add_option(rcvd, COAP_OPTION_BLOCK1, coap_encode_var_safe(buf, sizeof(buf), (num << 4) | 8 | sz), buf);
+      coap_lock_lock(ctx, break);
+      ret = coap_handle_response_send_block(s, NULL, rcvd);
+      if (x1_buf[0]) printf("%st%s", x1_buf, x1t_tok);
+      else if (ret == 1) printf("i");
+      else {
+        int ret2;
+        printf(code != 160 && rcvd->code == COAP_RESPONSE_CODE(500) ? "F" : "f");
+        ret2 = coap_handle_response_get_block(ctx, s, NULL, rcvd, COAP_RECURSE_OK);
+        if (ret2 == 0 && !crcvt_tbuf[0]) hex_into(crcvt_tbuf, sizeof(crcvt_tbuf), rcvd->actual_token.s, rcvd->actual_token.length);
+        if (ret2 == 0 || crcvt_tbuf[0]) printf("T%s", crcvt_tbuf); else printf("S");
+      }
+      coap_lock_unlock(ctx);
+      coap_delete_pdu(rcvd);
+    }
+    if (x1t_tok[0]) {
+      /* the message layer's part: the request just transmitted is acknowledged (an empty ACK), nothing stays queued */
+      coap_bin_const_t tb = { x1_tkl, x1_tok };
+      coap_lock_lock(ctx, break);
+      coap_cancel_all_messages(ctx, s, &tb);
+      coap_lock_unlock(ctx);
+    }
+    x1t_state(s);
+  }
   sim_tx_hook = NULL;
   sim_free_all(0);
   sim_log_enabled = 1;
@@ -1309,6 +1585,9 @@ static void step1(char *line) {
   } else if (!strcmp(w[0], "crcvs") && n == 7) {
     do_crcv_x(atoi(w[1]), strtoull(w[2], 0, 10), (unsigned)strtoul(w[3], 0, 10), strcmp(w[4], "-") ? atol(w[4]) : -1, w[6], 1,
               atoi(w[5]) != 0);
+  } else if (!strcmp(w[0], "crcvt") && n == 8) {
+    do_crcvt(atoi(w[1]), strtoull(w[2], 0, 10), (unsigned)strtoul(w[3], 0, 10), strcmp(w[4], "-") ? atol(w[4]) : -1, atoi(w[5]) != 0,
+             strtoull(w[6], 0, 10), w[7]);
   } else if (!strcmp(w[0], "ctok") && n == 5) {
     do_ctok(atoi(w[1]) != 0, w[2], w[3], w[4]);
   } else if (!strcmp(w[0], "xmit2") && n == 6) {
@@ -1318,6 +1597,9 @@ static void step1(char *line) {
     do_xmit2((unsigned)strtoul(w[1], 0, 10), strtoull(w[2], 0, 10), (unsigned)strtoul(w[3], 0, 10), m1, m2, w[5]);
   } else if (!strcmp(w[0], "xmit1") && n == 6) {
     do_xmit1(strcmp(w[1], "-") ? atoi(w[1]) : -1, strtoull(w[2], 0, 10), (unsigned)strtoul(w[3], 0, 10), (unsigned)strtoul(w[4], 0, 10), w[5]);
+  } else if (!strcmp(w[0], "xmit1t") && n == 8) {
+    do_xmit1t(strcmp(w[1], "-") ? atoi(w[1]) : -1, strtoull(w[2], 0, 10), (unsigned)strtoul(w[3], 0, 10), (unsigned)strtoul(w[4], 0, 10),
+              atoi(w[5]) != 0, strtoull(w[6], 0, 10), w[7]);
   } else if (!strcmp(w[0], "q408") && n == 8) {
     do_q408((unsigned)strtoul(w[1], 0, 10), strtoull(w[2], 0, 10), (unsigned)strtoul(w[3], 0, 10), (unsigned)strtoul(w[4], 0, 10),
             strcmp(w[5], "-") ? atoi(w[5]) : -1, atoi(w[6]), w[7]);
@@ -1342,7 +1624,7 @@ static char *cap_end(void) { fclose(stdout); stdout = h_saved; return h_cap; }
 
 static void step(char *line) {
   long live0 = h_live;
-  if (!strncmp(line, "crcv ", 5) || !strncmp(line, "crcvs ", 6) || !strncmp(line, "srcv", 4) || !strncmp(line, "q408 ", 5)) {
+  if (!strncmp(line, "crcv ", 5) || !strncmp(line, "crcvs ", 6) || !strncmp(line, "crcvt ", 6) || !strncmp(line, "srcv", 4) || !strncmp(line, "q408 ", 5)) {
     /* whatever the receiving application is handed must not depend on bytes nobody wrote */
     char *copy = strdup(line), *a, *b;
     h_poison = 0xA5; cap_begin(); step1(line); a = cap_end();
